@@ -41,7 +41,9 @@ func gen(t *rapid.T) Case {
 	}
 	o := progen.Opts{MaxPkgs: 2, MaxIfaces: 3, Avoid: map[string]bool{"srcpkg:mock": true, "pkg:mockp": true, "tparamname:mock": true, "tparamname:t": true},
 		MethodFilter: func(n string) bool { return testifyAPI[n] }}
-	return Case{Mod: progen.Gen(t, o), R: r, Seed: rapid.Uint64Range(1, 1<<62).Draw(t, "innerseed"), Checks: vh.Pick(150, 400)}
+	mod := progen.Gen(t, o)
+	r.GenIfaceData(t, &mod)
+	return Case{Mod: mod, R: r, Seed: rapid.Uint64Range(1, 1<<62).Draw(t, "innerseed"), Checks: vh.Pick(150, 400)}
 }
 
 var mockFileErr = regexp.MustCompile(`(?m)^(\.\./)?mocks/[^:\s]*\.go:\d+`)
